@@ -128,6 +128,45 @@ Theorem C14_terminates : forall (U : list bytes) fuel fuel' main_path main_conte
   build_lua fuel' main_path main_content = build_lua fuel main_path main_content.
 Proof. exact (build_fuel P parse_lines echo strip walk file_lines check_name find
                          preamble_package preamble_require header_line end_line nl_line). Qed.
+
+(* tokens (partial): relative to a reference tokenizer [sigt] (significant tokens of a text, None if it
+   does not lex) that has the CHUNKING property - the three hypotheses on sigt below, which are the
+   lexer stack's C07 chunking lemma - and to C06's echo statement, the significant tokens of the
+   cart's code are: the tokens of the package preamble, then for each table entry the tokens of its
+   header line, of the package's echoed code and of `end`, then the tokens of the require()
+   preamble, then the main program's tokens, unchanged.  Not discharged for the concrete stack
+   (hence _partial); what is NOT covered even relative to the hypotheses is the link between the
+   echoed code of a stripped package and the package's tokens minus its game loop functions - that
+   clause is checked on every run by the monitor holds_C14. *)
+Theorem C14_tokens_partial : forall (T : Type) (sigt : bytes -> option (list T)),
+  (forall a b ta tb, ends_with_nl a = true -> sigt a = Some ta -> sigt b = Some tb ->
+                     sigt (a ++ b) = Some (ta ++ tb)) ->
+  (forall a ta, sigt a = Some ta -> sigt (a ++ [10]) = Some ta) ->
+  sigt [] = Some [] ->
+  (forall ls q, parse_lines ls = Ok q -> concat (echo q) = concat ls) ->
+  (forall c, concat (file_lines c) = c) ->
+  nl_line = [10] ->
+  (forall n, ends_with_nl (header_line n) = true) ->
+  ends_with_nl end_line = true ->
+  Forall (fun l => ends_with_nl l = true) preamble_package ->
+  Forall (fun l => ends_with_nl l = true) preamble_require ->
+  forall fuel main_path main_content out,
+  build_code fuel main_path main_content = Ok out ->
+  exists r pk, build_lua fuel main_path main_content = Ok (r, pk) /\
+    let toks := toks T sigt in
+    let lexes := lexes T sigt in
+    (Forall lexes preamble_package -> Forall lexes preamble_require -> lexes end_line ->
+     Forall (fun e => lexes (header_line (fst e)) /\ lexes (concat (echo (snd e)))) pk ->
+     lexes main_content ->
+     sigt out = Some match pk with
+                     | [] => toks main_content
+                     | _ => concat (map toks preamble_package)
+                            ++ concat (map (fun e => toks (header_line (fst e)) ++ toks (concat (echo (snd e)))
+                                                     ++ toks end_line) pk)
+                            ++ concat (map toks preamble_require) ++ toks main_content
+                     end).
+Proof. exact (build_code_tokens P parse_lines echo strip walk file_lines check_name find
+                                preamble_package preamble_require header_line end_line nl_line). Qed.
 End Abstract.
 
 (* the concrete instance: lexer and parser models, walker and stripping as in build.py, the
@@ -149,4 +188,54 @@ Print Assumptions C14_errors_bad_arguments.
 Print Assumptions C14_errors_bad_name.
 Print Assumptions C14_errors_missing_file.
 Print Assumptions C14_terminates.
+Print Assumptions C14_tokens_partial.
 Print Assumptions C14_terminates_now.
+
+(* non-vacuity: a main program and two packages that require each other (a cycle), one game loop
+   function each, one package without a final newline; the build succeeds, embeds each package once
+   in order of first use, strips the game loop functions (for b the first request - the one made by
+   a - decides, as build.py's TODO says) and leaves the main program unchanged at the end *)
+Definition ex_main : bytes := "x=require(""a"")
+y=require(""b"",{use_game_loop=true})
+"%bs.
+Definition ex_a : bytes := "function _init() end
+b=require(""b"")
+return 1"%bs.
+Definition ex_b : bytes := "function _draw() end
+a=require(""a"")
+"%bs.
+Definition ex_fs : list (bytes * bytes) :=
+  [("/sb/main.lua"%bs : bytes, ex_main); ("/sb/a.lua"%bs : bytes, ex_a); ("/sb/b.lua"%bs : bytes, ex_b)].
+Definition ex_out : bytes := "package={loaded={},_c={}}
+package._c[""a""]=function()
+ 
+b=require(""b"")
+return 1
+end
+package._c[""b""]=function()
+ 
+a=require(""a"")
+end
+function require(p)
+local l=package.loaded
+if (l[p]==nil) l[p]=package._c[p]()
+if (l[p]==nil) l[p]=true
+return l[p]
+end
+x=require(""a"")
+y=require(""b"",{use_game_loop=true})
+"%bs.
+
+Example C14_example_build :
+  run_build "/sb"%bs ex_fs "?;?.lua"%bs "main.lua"%bs ex_main = Ok (ex_out, ["a"%bs : bytes; "b"%bs : bytes]).
+Proof. vm_compute. reflexivity. Qed.
+
+(* ... and a missing file / a third argument make it fail *)
+Example C14_example_missing :
+  run_build "/sb"%bs [("/sb/main.lua"%bs : bytes, ex_main); ("/sb/a.lua"%bs : bytes, ex_a)]
+            "?;?.lua"%bs "main.lua"%bs ex_main = Err BuildError.
+Proof. vm_compute. reflexivity. Qed.
+
+Example C14_example_bad_arguments :
+  run_build "/sb"%bs ex_fs "?;?.lua"%bs "main.lua"%bs "x=require(""a"",{use_game_loop=true},3)"%bs = Err BuildError.
+Proof. vm_compute. reflexivity. Qed.
